@@ -385,4 +385,21 @@ CHECKS = {
                    "perturbed by generated staggering, not enumerated: interleavings of Stop vs. self-termination are sampled, not exhausted.",
         assumptions=["Abaco clients call Configure before each Start (a finished run drops its packet producers, as in production)"],
     ),
+    "C17": dict(
+        pkg=".", hdir="root", test="TestVerif_C17", wal=True, race=True,
+        env={"GORACE": "log_path={work}/race halt_on_error=0 exitcode=0 history_size=3", "VERIF_RACE_LOG": "{work}/race"},
+        quick=dict(shards=32, checks=12, timeout=1200),
+        thorough=dict(shards=48, checks=250, timeout=3400),
+        technique="race-detector monitored property-based testing: rapid-generated pipeline workloads run in a -race build; every detector report is a failure (signature = pair of innermost dastard frames)",
+        rule="rapid-generated workloads in a binary built with the Go race detector: 40% life-cycle histories (C10 generator: scripted / Triangle / SimPulse / "
+             "Erroring / Abaco with scripted producer / Abaco over real UDP; concurrent Stops, self-termination, queued requests, writing, raw-data archive "
+             "requests back to back, restarts), 30% request histories on a real SourceControl (C11 generator: all request types, writing, group triggers, "
+             "state labels, SENDALL, map load), 20% Lancero reader runs with mix changes, external triggers and gaps (C04 generator, scripted card), 10% status "
+             "publisher histories (C16 generator). non-trivial as defined by the embedded workload's own rule; distinct = FNV-64 of the case",
+        level_text="Zero race-detector reports over all executed workloads. The detector decides happens-before for the executions that were run: a report is "
+                   "a proof of a race in that execution, silence is not a proof of absence for other workloads or code paths.",
+        level_note="Reports whose two accesses both lie in harness code are ignored. The embedded workloads' own functional oracles are not judged here (a -race "
+                   "build is slower; their verdicts belong to C04/C10/C11/C16), except panics.",
+        assumptions=["a single client issues control requests (concurrent clients are outside the property)"],
+    ),
 }
